@@ -3,7 +3,7 @@
    decrypt of the half as the external call: each helper is ONE raw call on exactly the wire layout
    (big-endian size, little-endian opcode), so it returns the same bytes and leaves the same state. *)
 From WS Require Import lib.Bytes lib.Res lib.StepLoop Consts Steps model.HeaderCipher model.HeaderIo
-  proofs.steps.HelpersCommon proofs.steps.HelpersVanilla proofs.steps.HelpersTbc.
+  lib.IoScript proofs.steps.HelpersCommon proofs.steps.HelpersVanilla proofs.steps.HelpersTbc proofs.steps.IoWrappers.
 From WS Require model.Vanilla model.Tbc.
 Local Open Scope N_scope.
 
@@ -31,5 +31,47 @@ Proof.
   split; [exact (tbc_decrypt_server_header_translated h d4 H4) | exact (tbc_decrypt_client_header_translated h d6 H6)].
 Qed.
 
+(* The Read wrappers, as translated: when read_exact fails before the header is complete - whatever the
+   offset, the error kind or the fragmentation that led there - the wrapper returns that error and the
+   half is EXACTLY as it was: the cipher (any cipher: the statement holds for every raw function) is not
+   even called.  When read_exact succeeds, the result is the typed helper on the bytes delivered. *)
+Theorem C11_source_read_failure : forall (ST : Type) (ext : ST -> list N -> option (ST * list N)) (h : ST) s kd,
+  (read_exact 4 s = Err kd ->
+     tr_vanilla_read_and_decrypt_server_header ext h s = Some (h, inr kd, s) /\
+     tr_tbc_read_and_decrypt_server_header ext h s = Some (h, inr kd, s)) /\
+  (read_exact 6 s = Err kd ->
+     tr_vanilla_read_and_decrypt_client_header ext h s = Some (h, inr kd, s) /\
+     tr_tbc_read_and_decrypt_client_header ext h s = Some (h, inr kd, s)).
+Proof.
+  intros ST ext h s kd. split; intro E;
+  unfold tr_vanilla_read_and_decrypt_server_header, tr_tbc_read_and_decrypt_server_header,
+         tr_vanilla_read_and_decrypt_client_header, tr_tbc_read_and_decrypt_client_header;
+  rewrite !repeat_length;
+  [change (N.to_nat vanilla_server_header_length) with 4%nat; change (N.to_nat tbc_server_header_length) with 4%nat
+  |change (N.to_nat vanilla_client_header_length) with 6%nat; change (N.to_nat tbc_client_header_length) with 6%nat];
+  rewrite E; split; reflexivity.
+Qed.
+
+(* all eight wrappers are the model's functions (which the fragmentation / failure-offset / write-error
+   theorems of props/C11.v are about) *)
+Theorem C11_source_wrappers_are_model : forall hv ht s w size opcode,
+  tr_vanilla_read_and_decrypt_server_header (fun h d => nview (V.decrypt h d)) hv s = rview (v_read_and_decrypt_server_header hv s) s /\
+  tr_vanilla_read_and_decrypt_client_header (fun h d => nview (V.decrypt h d)) hv s = rview (v_read_and_decrypt_client_header hv s) s /\
+  tr_vanilla_write_encrypted_server_header (fun h d => nview (V.encrypt h d)) hv ([], w) size opcode = wview (v_write_encrypted_server_header hv w size opcode) /\
+  tr_vanilla_write_encrypted_client_header (fun h d => nview (V.encrypt h d)) hv ([], w) size opcode = wview (v_write_encrypted_client_header hv w size opcode) /\
+  tr_tbc_read_and_decrypt_server_header (fun h d => nview (T.decrypt h d)) ht s = rview (t_read_and_decrypt_server_header ht s) s /\
+  tr_tbc_read_and_decrypt_client_header (fun h d => nview (T.decrypt h d)) ht s = rview (t_read_and_decrypt_client_header ht s) s /\
+  tr_tbc_write_encrypted_server_header (fun h d => nview (T.encrypt h d)) ht ([], w) size opcode = wview (t_write_encrypted_server_header ht w size opcode) /\
+  tr_tbc_write_encrypted_client_header (fun h d => nview (T.encrypt h d)) ht ([], w) size opcode = wview (t_write_encrypted_client_header ht w size opcode).
+Proof.
+  intros.
+  split; [apply vanilla_read_server_translated|]. split; [apply vanilla_read_client_translated|].
+  split; [apply vanilla_write_server_translated|]. split; [apply vanilla_write_client_translated|].
+  split; [apply tbc_read_server_translated|]. split; [apply tbc_read_client_translated|].
+  split; [apply tbc_write_server_translated | apply tbc_write_client_translated].
+Qed.
+
 Print Assumptions C11_source_helpers_vanilla.
+Print Assumptions C11_source_read_failure.
+Print Assumptions C11_source_wrappers_are_model.
 Print Assumptions C11_source_helpers_tbc.
